@@ -171,6 +171,7 @@ func (q *BooleanQuery) Searcher(ctx context.Context, i index.IndexReader, m mapp
 	}
 
 	var filterFunc searcher.FilterFunc
+	var filterSearcher search.Searcher
 	if q.Filter != nil {
 		// create a new searcher options with disabled scoring, since filter should not affect scoring
 		// and we don't want to pay the cost of scoring if we don't need it, also disable term vectors
@@ -180,7 +181,7 @@ func (q *BooleanQuery) Searcher(ctx context.Context, i index.IndexReader, m mapp
 			IncludeTermVectors: false,
 			Score:              "none",
 		}
-		filterSearcher, err := q.Filter.Searcher(ctx, i, m, filterOptions)
+		filterSearcher, err = q.Filter.Searcher(ctx, i, m, filterOptions)
 		if err != nil {
 			return nil, err
 		}
@@ -243,7 +244,7 @@ func (q *BooleanQuery) Searcher(ctx context.Context, i index.IndexReader, m mapp
 		return searcher.NewFilteringSearcher(ctx,
 			mustSearcher,
 			filterFunc,
-		), nil
+		).CloseWith(filterSearcher), nil
 	}
 
 	// if only mustNotSearcher, start with MatchAll
@@ -260,7 +261,7 @@ func (q *BooleanQuery) Searcher(ctx context.Context, i index.IndexReader, m mapp
 	}
 
 	if filterFunc != nil {
-		return searcher.NewFilteringSearcher(ctx, bs, filterFunc), nil
+		return searcher.NewFilteringSearcher(ctx, bs, filterFunc).CloseWith(filterSearcher), nil
 	}
 	return bs, nil
 }
